@@ -461,6 +461,9 @@ class SuperSpeedStreamInEndpoint(Elaboratable):
                         # If neither of the above conditions are true; we now don't have enough data to send.
                         # We'll wait for enough data to transmit.
                         with m.Else():
+                            with m.If(is_in_token):
+                                m.d.comb += handshakes_out.send_nrdy  .eq(1)
+                                m.d.ss   += erdy_required             .eq(1)
                             m.next = "WAIT_FOR_DATA"
 
         return m
